@@ -46,6 +46,8 @@ def run(tier):
     R.under_contract(C14.check_bracket_tol(reg, src, PID))
     # ... and the samples that classify a located crossing stay distinct from the root at any magnitude of t (lemma over _probe_offset)
     R.under_contract(EV.check_probe_offset(reg, src, PID))
+    # ... and the function the root finder is given for event k is event k on the dense solution (with its gradient when asked for)
+    R.under_contract(EV.check_event_wrappers(reg, src, PID))
     for name in ("handle_events", "prepare_events", "OdeSystem.integrate", "DenseOutput.add_interpolant", "DenseOutput.remove_interpolant", "DenseOutput.__len__"):
         R.under_contract(src.func(IC.F, name))
     return EC.finish(R, reg, ["C08"], tier, "native event family (number of reported crossings = number of exact crossings; scales 1e-6..1e6, steep events, 1..6 events, both directions, dense on/off, crossings on step boundaries)")
